@@ -17,7 +17,8 @@ RULE = (
     "limit, binds - Hypothesis generates a weight vector (uniform, sparse, one-phase-heavy, "
     "balanced with jitter) over the stations behind one transformer and an ascent order; the "
     "schedule is scaled by bisection on network.is_feasible (phase-aware, or linear=True in a "
-    "quarter of the cases) to the feasibility frontier, improved by coordinate ascent (each "
+    "quarter of the cases; on the network as built or, in a quarter of the cases, as restored from "
+    "its JSON dump) to the feasibility frontier, improved by coordinate ascent (each "
     "station raised as far as is_feasible allows, up to 32 A) and, for real EVSE types, snapped to "
     "allowable levels; hypothesis.target steers towards P/capacity = 1. Oracle for every schedule "
     "the network ACCEPTS (physical, angle-free): per transformer 120*sqrt(3)*sum(I)/1000 <= "
@@ -90,10 +91,21 @@ def topology(site):
 def build(spec):
     kw = {"basic_evse": spec["basic"]}
     if spec["site"] == "caltech":
-        return sites.caltech_acn(transformer_cap=spec["caps"]["main"], **kw)
-    if spec["site"] == "office001":
-        return sites.office001_acn(transformer_cap=spec["caps"]["main"], **kw)
-    return sites.jpl_acn(first_transformer_cap=spec["caps"]["first"], third_fourth_transformer_cap=spec["caps"]["third_fourth"], **kw)
+        net = sites.caltech_acn(transformer_cap=spec["caps"]["main"], **kw)
+    elif spec["site"] == "office001":
+        net = sites.office001_acn(transformer_cap=spec["caps"]["main"], **kw)
+    else:
+        net = sites.jpl_acn(first_transformer_cap=spec["caps"]["first"], third_fourth_transformer_cap=spec["caps"]["third_fourth"], **kw)
+    if spec.get("json"):
+        # the site model as it comes back from a saved file
+        import warnings
+
+        from acnportal.acnsim import ChargingNetwork
+
+        with warnings.catch_warnings():
+            warnings.simplefilter("ignore")
+            net = ChargingNetwork.from_json(net.to_json())
+    return net
 
 
 def line_currents(groups, cur):
@@ -142,6 +154,8 @@ def prop(spec, rec):
                 w[i] = spec["background"]
     S = np.clip(w, 0, 1) * 32.0
     labels = {spec["site"], "basic" if spec["basic"] else "real_evse", "linear" if linear else "phase_aware", "kind_" + spec["kind"]}
+    if spec.get("json"):
+        labels.add("loaded_from_json")
     worst = 0.0
     # scale to the frontier
     if not feas(S):
@@ -233,17 +247,18 @@ def cases(draw):
         "order": draw(st.lists(st.integers(0, 60), max_size=12)),
         "linear": draw(st.integers(0, 3)) == 0,
         "snap_down": draw(st.booleans()),
+        "json": draw(st.integers(0, 3)) == 0,
     }
 
 
 def structure_items(tier):
-    return [{"site": s, "basic": b} for s in ("caltech", "jpl", "office001") for b in (True, False)]
+    return [{"site": s, "basic": b, "json": j} for s in ("caltech", "jpl", "office001") for b in (True, False) for j in (False, True)]
 
 
 def prop_structure(spec, rec):
     topo = topology(spec["site"])
     caps = {g: 100.0 for g in topo["transformers"]}
-    net = build({"site": spec["site"], "basic": spec["basic"], "caps": caps})
+    net = build({"site": spec["site"], "basic": spec["basic"], "caps": caps, "json": spec.get("json")})
     ids = list(net.station_ids)
     require(len(ids) == len(set(ids)), "duplicate_station", lambda: "duplicate station ids in %s" % spec["site"])
     require(sorted(ids) == sorted(topo["pairs"]) and len(ids) == topo["count"], "station_set", lambda: "%s: stations %r differ from the documented %d" % (spec["site"], sorted(set(ids) ^ set(topo["pairs"])), topo["count"]))
@@ -272,7 +287,11 @@ def prop_structure(spec, rec):
         else:
             want = [0.0, 8.0, 16.0, 24.0, 32.0] if s in CAL_CC_POD and spec["site"] == "caltech" else [0.0] + [float(x) for x in range(6, 33)]
             require([float(x) for x in net.allowable_rates[i]] == want, "real_evse_levels", lambda: "station %s levels %r" % (s, list(net.allowable_rates[i])))
-    rec.case(spec, {spec["site"], "structure"}, True)
+    # constraint columns follow the station order the network reports (pods, panels by name)
+    for name, (members, limit) in topo["pods"].items():
+        row = df.loc[name]
+        require(sorted(s for s in ids if row[s] != 0) == sorted(members) and float(net.magnitudes[list(df.index).index(name)]) == limit, "pod_constraint_members", lambda: "%s: constraint %s covers %r" % (spec["site"], name, sorted(s for s in ids if row[s] != 0)))
+    rec.case(spec, {spec["site"], "structure"} | ({"loaded_from_json"} if spec.get("json") else set()), True)
 
 
 def subchecks(tier):
